@@ -127,7 +127,9 @@ Print Assumptions no_fatal_partial.
 
 (* Liveness, proved part: verdicts are deliverable, mark_completed follows, finished pieces can be queued, done is
    enabled when everything is complete. MISSING (and FALSE of the faithful model, see eventually_done_refuted): that an
-   honest connected peer can always be asked for a missing block. *)
+   honest connected peer can always be asked for a missing block. Under that explicit hypothesis ([requestable]) the
+   trace-level statement with a computed step count is honest_piece_completes below; the hypothesis is discharged for the
+   repaired Block::insert after do_all_failed in honest_piece_completes_after_reset. *)
 Theorem eventually_done_partial :
   forall (H : list N -> list N) (expected : N -> list N) (npieces : N) (psize : N -> N) (repaired : bool) s,
   (forall i, pmark s = None -> In i (hashing s) ->
@@ -184,8 +186,8 @@ Print Assumptions reset_block_insertable.
    peer that holds the piece: reset_block_insertable makes every block of a failed piece requestable again (repaired guard),
    honest_block_step finishes one more block with the original bytes, finished_piece_completes completes the piece once
    all its blocks are finished with the original bytes, eventually_done_partial enables "done" once every piece is
-   completed. NOT proved: the composition into one trace-level theorem (it needs the scheduler to stop hostile peers from
-   re-leading the blocks, i.e. max_failed blame, which is not modelled). *)
+   completed. The composition into one trace-level theorem with a computed length is honest_piece_completes /
+   honest_piece_completes_after_reset below (for the uncontended case: no other peer takes the blocks in between). *)
 Theorem honest_block_step :
   forall (H : list N -> list N) (expected : N -> list N) (npieces : N) (psize : N -> N) (repaired : bool) s i b x p d,
   pmark s = None -> find_block s i b = Some x -> b_off x / bs = b ->
@@ -197,6 +199,90 @@ Theorem honest_block_step :
              piece s' i = splice (piece s i) (N.to_nat (b_off x)) d /\ get_cur s' p = None /\ pmark s' = None.
 Proof. exact ProofsLive.honest_block_step. Qed.
 Print Assumptions honest_block_step.
+
+(* Block numbering is an invariant: in every reachable state block b of a piece starts at b * block_size (this is what
+   down_chunk_start's off / block_size lookup relies on; it discharges the side condition b_off x / bs = b of
+   honest_block_step for reachable states). *)
+Theorem block_offsets :
+  forall (H : list N -> list N) (expected : N -> list N) (npieces : N) (psize : N -> N) (repaired : bool) st0 c0 tr s x,
+  run H expected npieces psize repaired (init st0 c0) tr = Some s -> In x (blocks s) -> b_off x = b_no x * bs.
+Proof. exact ProofsGeo.no_off_run. Qed.
+Print Assumptions block_offsets.
+
+(* honest_block_step with its frame: only block (i, b) changes; connections, hash queue, listed pieces, completed bitfield,
+   have queue and done flag do not. *)
+Theorem honest_block_step_frame :
+  forall (H : list N -> list N) (expected : N -> list N) (npieces : N) (psize : N -> N) (repaired : bool) s i b x p d,
+  pmark s = None -> find_block s i b = Some x -> b_off x / bs = b ->
+  In p (conns s) -> get_cur s p = None ->
+  b_leader x = None -> b_trans x = [] -> memN p (b_queued x) = false -> ins_refused repaired p x = false ->
+  lenN d = b_len x -> 0 < b_len x ->
+  exists s', run H expected npieces psize repaired s [EIns p i b; EPiece p i (b_off x) (b_len x) true; EData p d] = Some s' /\
+             (exists x', find_block s' i b = Some x' /\ finished x' = true /\ b_queued x' = [] /\ b_leader x' = Some p) /\
+             piece s' i = splice (piece s i) (N.to_nat (b_off x)) d /\ get_cur s' p = None /\ pmark s' = None /\
+             (exists G, (forall y, ProofsInv.key (G y) = ProofsInv.key y) /\ (forall y, b_len (G y) = b_len y) /\ finished (G x) = true /\
+                        blocks s' = upd_block (blocks s) i b G) /\
+             conns s' = conns s /\ hashing s' = hashing s /\ attempts s' = attempts s /\ completed s' = completed s /\
+             done s' = done s /\ haves s' = haves s.
+Proof. exact ProofsLive.honest_block_step_frame. Qed.
+Print Assumptions honest_block_step_frame.
+
+(* Liveness for a whole piece, as ONE trace with a computed length (replaces the informal measure argument above).
+   ublocks s i   = the unfinished blocks of piece i in BlockList order,
+   requestable   = Block::insert accepts p for the block (no leader, no transfer of the current attempt, p neither queued
+                   nor refused) and [serve] has data of the block's length for it,
+   serve_trace   = [Ins; PIECE header; data] for each of these blocks, verdict_trace = [HashQueued; HashDone ok; Mark; Have],
+   serve_all     = the piece after these writes.
+   In any reachable state with no verdict in progress, if an idle connected peer p can be asked for every unfinished
+   block of the listed piece i and the bytes it serves make the piece hash to the torrent's digest, then these
+   3 * (unfinished blocks) + 4 events of p and the hash queue are accepted in sequence (no other peer has to move, and
+   whatever else is going on in other blocks / pieces / connections does not matter), and they end with i completed and
+   announced and the store holding exactly the served bytes; if i was the last missing piece, "done" is then enabled.
+   So under a scheduler fair to these enabled events the piece completes within that many of p's steps.
+   What remains a hypothesis is [requestable] itself: FALSE in general with the old Block::insert
+   (eventually_done_refuted), a theorem after do_all_failed with the repaired one (honest_piece_completes_after_reset).
+   Interference by hostile peers racing p for the same blocks between these steps (p then becomes a follower) is not covered. *)
+Theorem honest_piece_completes :
+  forall (H : list N -> list N) (expected : N -> list N) (npieces : N) (psize : N -> N) (repaired : bool),
+  (forall i, i < npieces -> 0 < psize i) ->
+  forall st0 c0 tr s i p serve,
+  (forall i, In i c0 -> H (nth (N.to_nat i) st0 []) = expected i) ->
+  run H expected npieces psize repaired (init st0 c0) tr = Some s ->
+  pmark s = None -> listed s i = true -> ~ In i (hashing s) -> In p (conns s) -> get_cur s p = None ->
+  (forall x, In x (ublocks s i) -> requestable repaired p serve x) ->
+  H (serve_all serve (ublocks s i) (piece s i)) = expected i ->
+  exists s', run H expected npieces psize repaired s (serve_trace p i serve (ublocks s i) ++ verdict_trace i) = Some s' /\
+             length (serve_trace p i serve (ublocks s i) ++ verdict_trace i) = (3 * length (ublocks s i) + 4)%nat /\
+             In i (completed s') /\ In i (haves s') /\ piece s' i = serve_all serve (ublocks s i) (piece s i) /\
+             listed s' i = false /\
+             ((forall j, j < npieces -> j <> i -> In j (completed s)) -> done s = false ->
+              accept H expected npieces psize repaired s' EDone <> None).
+Proof. exact ProofsLive.honest_piece_completes. Qed.
+Print Assumptions honest_piece_completes.
+
+(* With the repaired Block::insert, [requestable] is discharged right after the second failed verdict of a piece
+   (BlockList::do_all_failed), whatever the peers did before: an idle connected peer that is not already queued on the
+   blocks of the piece and serves bytes hashing to the torrent's digest completes it in 3 * (blocks of the piece) + 4
+   steps. With the old guard the same state can be a deadlock (eventually_done_refuted; Example ex_after_reset_hyps
+   instantiates this theorem on exactly that trace). *)
+Theorem honest_piece_completes_after_reset :
+  forall (H : list N -> list N) (expected : N -> list N) (npieces : N) (psize : N -> N),
+  (forall i, i < npieces -> 0 < psize i) ->
+  forall st0 c0 tr s i s1 p serve,
+  (forall i, In i c0 -> H (nth (N.to_nat i) st0 []) = expected i) ->
+  run H expected npieces psize true (init st0 c0) tr = Some s ->
+  accept H expected npieces psize true s (EHashDone i false) = Some s1 -> attempt_of s i <> 0 ->
+  In p (conns s1) -> get_cur s1 p = None ->
+  (forall x, In x (ublocks s1 i) -> memN p (b_queued x) = false /\ lenN (serve (b_no x)) = b_len x) ->
+  H (serve_all serve (ublocks s1 i) (piece s1 i)) = expected i ->
+  exists s', run H expected npieces psize true s1 (serve_trace p i serve (ublocks s1 i) ++ verdict_trace i) = Some s' /\
+             length (serve_trace p i serve (ublocks s1 i) ++ verdict_trace i) = (3 * length (ublocks s1 i) + 4)%nat /\
+             In i (completed s') /\ In i (haves s') /\ piece s' i = serve_all serve (ublocks s1 i) (piece s1 i) /\
+             listed s' i = false /\
+             ((forall j, j < npieces -> j <> i -> In j (completed s1)) -> done s1 = false ->
+              accept H expected npieces psize true s' EDone <> None).
+Proof. exact ProofsLive.honest_piece_completes_after_reset. Qed.
+Print Assumptions honest_piece_completes_after_reset.
 
 Theorem params_ok_now : params_ok = true.
 Proof. exact ProofsB.params_ok_now. Qed.
